@@ -1,13 +1,10 @@
 (* Exact numbers (Integer, Rational, Complex in normal form) as coefficients and exponents of the
    arithmetic model: totality, normal forms and the ring laws of num_add / num_mul as EQUALITIES of
    the model's results (from the Q(i) semantics of Num/NumC05.v and uniqueness of normal forms). *)
-From SE Require Export Expr.Arith Expr.Wf.
+From SE Require Export Expr.ArithGuards.
 From SE Require Import Num.NumSpec Num.NumQ Num.NumQi Num.NumC05 Expr.CmpProofs.
 From Coq Require Import QArith Qreduction Lia ZArith Setoid Morphisms.
 Local Open Scope Z_scope.
-
-(* exact kind and the representation invariant of its class *)
-Definition xok (n : number) : bool := num_is_exact n && NumModel.num_wf n.
 
 Lemma xok_exact : forall n, xok n = true -> num_is_exact n = true.
 Proof. intros n H. apply andb_prop in H. apply H. Qed.
